@@ -88,7 +88,17 @@ def key_uses_tainted(e):
 _counter = itertools.count(1)
 
 
-class Var:
+class _Model:
+    """objects of the API model: an attribute the model does not have is a limit of the model (undecided), never
+    an AttributeError attributed to the code under test"""
+
+    def __getattr__(self, name):
+        if name.startswith("__"):
+            raise AttributeError(name)
+        raise EngineLimit("the JAX-0.7 API model of %s has no attribute %r" % (type(self).__name__, name))
+
+
+class Var(_Model):
     def __init__(self, name=None):
         self.count = next(_counter)
         self.name = name or "v%d" % self.count
@@ -102,30 +112,32 @@ class DropVar(Var):
     pass
 
 
-class Literal:
+class Literal(_Model):
     def __init__(self, val):
         self.val = val
 
 
-class Eqn:
+class Eqn(_Model):
     def __init__(self, primitive, invars, outvars, params=None):
         self.primitive, self.invars, self.outvars, self.params = primitive, list(invars), list(outvars), dict(params or {})
         self.source_info = types.SimpleNamespace(traceback=None)
 
 
-class Jaxpr:
+class Jaxpr(_Model):
     def __init__(self, constvars, invars, eqns, outvars):
         self.constvars, self.invars, self.eqns, self.outvars = list(constvars), list(invars), list(eqns), list(outvars)
         self.debug_info = None
 
 
-class ClosedJaxpr:
+class ClosedJaxpr(_Model):
     def __init__(self, jaxpr, consts):
         self.jaxpr, self.consts = jaxpr, list(consts)
         self.literals = self.consts
 
+    eqns = property(lambda self: self.jaxpr.eqns)
 
-class Prim:
+
+class Prim(_Model):
     """first-order primitive of the model; `bind` of an unknown primitive is uninterpreted"""
 
     def __init__(self, name, multiple_results=False, n_out=1):
